@@ -18,6 +18,12 @@ pub(super) fn validate_query_against_schema(
     query: &Query,
 ) -> Result<(), FrontendError> {
     let mut path = vec![];
+    if query.root_field.name.as_ref() == TYPENAME_META_FIELD {
+        // The meta field is a property of vertices; the root query type only has edges.
+        return Err(FrontendError::ValidationError(ValidationError::NonExistentPath(vec![
+            TYPENAME_META_FIELD.to_string(),
+        ])));
+    }
     validate_field(
         schema,
         schema.query_type_name(),
